@@ -156,9 +156,10 @@ Print Assumptions C10_model_meets_spec.
 Example C10_nonvacuous :
   let t2 := PN [([0%Z], PN [([1%Z], PL 3%Z); ([2%Z], PL 0%Z)]); ([2%Z], PN []);
                 ([3%Z], PN [([0%Z], PL 7%Z)])] in
-  c10_wf (CV 2 (VSplit {| sp_kind := KUniform 2; sp_pre := 1; sp_post := 0; sp_rel := false |} (Some 16%Z)) [t2]) = true
-  /\ c10_wf (CV 2 (VUpdPayloads 5) [t2]) = true
-  /\ c10_wf (CV 0 VSwap [t2]) = true
+  c10_wf (CV 2 0%Z (VSplit {| sp_kind := KUniform 2; sp_pre := 1; sp_post := 0; sp_rel := false |} (Some 16%Z)) [t2]) = true
+  /\ c10_wf (CV 2 0%Z (VUpdPayloads 5) [t2]) = true
+  /\ c10_wf (CV 0 0%Z VSwap [t2]) = true
+  /\ c10_wf (CV 2 7%Z (VFromFiber None) [t2]) = true
   /\ c10_wf (CR 2 t2 t2 [RGet [1%Z; 1%Z]; RUnion; REq]) = true
-  /\ holds c10_checker (CV 2 (VUpdPayloads 5) [t2]) (model c10_checker (CV 2 (VUpdPayloads 5) [t2])) = true.
+  /\ holds c10_checker (CV 2 0%Z (VUpdPayloads 5) [t2]) (model c10_checker (CV 2 0%Z (VUpdPayloads 5) [t2])) = true.
 Proof. vm_compute. repeat split. Qed.
